@@ -187,8 +187,14 @@ def run(ctx) -> None:
     fmts_ = [const_str(c.args[0]) for c in ast.walk(iv.node) if isinstance(c, ast.Call) and isinstance(c.func, ast.Attribute) and c.func.attr == "strftime" and c.args]
     ctx.require(len(fmts_) == 1 and fmts_[0] is not None, "_initial_version: strftime format not found")
     f = fmts_[0]
-    ctx.require(f.count("%") == 1 and "%Y" in f, f"_initial_version: format {f!r} not modelled")
-    pre, post = f.split("%Y")
+    ctx.require(f.count("%") == 1 and re.search(r"%[YG]", f) is not None, f"_initial_version: format {f!r} not modelled")
+    year_dir = re.search(r"%([YG])", f).group(1)
+    # the templates' pattern starts with YYYY, the *calendar* year: `show` must report this year's version on every day
+    ctx.check("R3", year_dir == "Y", "_initial_version renders the calendar year (%Y), which is what the template's YYYY part means",
+              "config._initial_version: the initial version is not rendered from the calendar year",
+              f"format {f!r}: %G is the ISO week-numbering year - on days around New Year (2027-01-01, 2024-12-30) `init` writes and `show` reports last or next year's initial version",
+              loc=iv.loc(), witness={"date": "2027-01-01", "%G": 2026, "%Y": 2027})
+    pre, post = f.split("%" + year_dir)
     img = rl.Cat([rl.lit(pre), rl.from_regex("[1-9][0-9]{3}"), rl.lit(post)])
     v2p = prog.const("v2patterns", "PART_PATTERNS")
     for name in sum(bases.values(), []):
@@ -352,6 +358,24 @@ def run(ctx) -> None:
         ctx.check("R4", ok2, "second pass: the first existing candidate, whatever its content", "config._pick_config_filepath: existence fallback changed", "", loc=pk.loc(second))
     last = pk.node.body[-1]
     ctx.check("R4", isinstance(last, ast.Return) and unparse(last.value) == f"{pk.params[0]} / 'bumpver.toml'", "fallback: path / 'bumpver.toml'", "config._pick_config_filepath: fallback is not bumpver.toml", unparse(last), loc=pk.loc(last))
+    # the format handed to the readers is the file's extension, for every candidate name (also `.bumpver.toml`)
+    import pathlib as _pl
+    pcf_ = prog.function("config._parse_config_and_format") if prog.has_function("config._parse_config_and_format") else prog.function("config.init_project_ctx")
+    ctx.visit(pcf_.fq)
+    fmt_stmts = [st for st in walk_no_nested(pcf_.node) if isinstance(st, (ast.Assign, ast.AnnAssign)) and any(isinstance(x, ast.Name) and x.id == "config_format" and isinstance(x.ctx, ast.Store) for x in ast.walk(st))]
+    ctx.require(len(fmt_stmts) == 1, "_parse_config_and_format: definition of config_format not found")
+    bad_fmt = []
+    for nm in names:
+        env_ = {"config_filepath": _pl.PurePosixPath("/proj") / nm}
+        try:
+            prog._propagate(pcf_.module, fmt_stmts, env_, pcf_.fq)
+            got_ = env_.get("config_format")
+        except AnalysisError as ex_:
+            raise AnalysisError(f"C19: config_format of `{nm}` cannot be decided: {ex_}")
+        if got_ != nm.rsplit(".", 1)[1]:
+            bad_fmt.append((nm, got_))
+    ctx.check("R4", not bad_fmt, f"config_format is the extension of every candidate file name {names}", "config._parse_config_and_format: the config format is not the file's extension for every candidate",
+              f"{bad_fmt}: `init`, `init --dry` and `show` fail with an invalid config_format whenever that file is selected" if bad_fmt else "", loc=pcf_.loc(fmt_stmts[0]), witness=bad_fmt[:1])
     for fmt, files in self_files.items():
         cand_fmt = {n for n in names if n.endswith("." + fmt)}
         ctx.check("R4", cand_fmt <= set(tables[fmt]), f"default_config has a self snippet for every {fmt} candidate {sorted(cand_fmt)}", f"config.default_config: no self snippet for a {fmt} candidate file",
